@@ -202,6 +202,12 @@ func (s *clientSocket) registerSubEvents() {
 	)
 
 	s.activeMu.Lock()
+	if s.subDeregister != nil {
+		// Already registered (`Connect` is called again before the socket is connected).
+		// Registering them once more would make every open, error and close of the manager count twice.
+		s.activeMu.Unlock()
+		return
+	}
 	s.active = true
 	s.manager.openHandlers.onSubEvent(&openFunc)
 	s.manager.errorHandlers.onSubEvent(&errorFunc)
